@@ -969,6 +969,14 @@ static void build_expr(WorkList *list, ASTNode *expr, Environment *env) {
                     emit_literal(list, ", ");
                     build_expr(list, expr->as.prefix_op.args[1], env);
                     emit_literal(list, ")");
+                } else if ((op == TOKEN_SLASH || op == TOKEN_PERCENT) && op_t1 == TYPE_INT && op_t2 == TYPE_INT) {
+                    /* INT64_MIN / -1 and INT64_MIN % -1 overflow in C (SIGFPE on x86); integers
+                     * wrap, so integer division goes through helpers that handle a divisor of -1. */
+                    emit_literal(list, op == TOKEN_SLASH ? "nl_idiv(" : "nl_imod(");
+                    build_expr(list, expr->as.prefix_op.args[0], env);
+                    emit_literal(list, ", ");
+                    build_expr(list, expr->as.prefix_op.args[1], env);
+                    emit_literal(list, ")");
                 } else {
                     /* Regular binary operator */
                     bool needs_parens = (op == TOKEN_PLUS || op == TOKEN_MINUS || 
